@@ -98,41 +98,82 @@ macro_rules! same_bytes {
     }};
 }
 
-pub fn v3_publish_async(s: &mut Src) {
+fn v3_publish(s: &mut Src) -> (mp::v3::Packet, bool) {
     let pid = s.u16();
     let t = s.u8();
     let pay: [u8; 2] = s.bytes();
     let dup = s.bool();
     vassume!(pid != 0 && t < 0x80 && t != b'+' && t != b'#' && t != 0);
-    let pkt = mp::v3::Packet::Publish(mp::v3::Publish {
+    (mp::v3::Packet::Publish(mp::v3::Publish {
         dup, retain: true, qos_pid: mp::QosPid::Level2(mp::Pid::try_from(pid).unwrap()),
         topic_name: mp::TopicName::try_from(unsafe { String::from_utf8_unchecked(vec![t]) }).unwrap(),
         payload: Bytes::copy_from_slice(&pay),
-    });
+    }), dup)
+}
+
+macro_rules! v3_publish_script {
+    ($name:ident, $acts:expr, $polls:expr, $label:literal) => {
+        pub fn $name(s: &mut Src) {
+            let (pkt, dup) = v3_publish(s);
+            let e1 = pkt.encode();
+            if let Ok(a) = &e1 {
+                let r: &[u8] = a.as_ref();
+                vassert!(r.len() == 9 && r[0] == (0x35 | if dup { 8 } else { 0 }) && r[1] == 7, "C09|header|fixed header of the blocking encoder is wrong");
+                same_bytes!(pkt, r, $acts, $polls, $label);
+                vcover!(true, "compared");
+            } else {
+                vassert!(false, "C09|encode_fails|encode() fails on a valid packet");
+            }
+            done(e1); done(pkt);
+        }
+    };
+}
+v3_publish_script!(v3_publish_all, &[W::Take(usize::MAX)], 2, "C09|async.all_at_once|encode_async emits different bytes than encode()");
+v3_publish_script!(v3_publish_partial, &[W::Take(1), W::Pend, W::Take(1), W::Pend, W::Take(2), W::Take(1), W::Pend, W::Take(3), W::Take(usize::MAX)], 8,
+    "C09|async.partial_writes|encode_async under partial writes and Pending emits different bytes than encode()");
+v3_publish_script!(v3_publish_pending_first, &[W::Pend, W::Pend, W::Take(8), W::Pend, W::Take(1)], 8,
+    "C09|async.pending_first|encode_async with Pending before any write emits different bytes than encode()");
+
+pub fn v3_publish_repeat(s: &mut Src) {
+    let (pkt, _) = v3_publish(s);
     let e1 = pkt.encode();
     let e2 = pkt.encode();
     if let (Ok(a), Ok(b)) = (&e1, &e2) {
-        let r: &[u8] = a.as_ref();
-        vassert!(eq_bytes(r, b.as_ref()), "C09|repeat|two invocations of encode() emit different bytes");
-        vassert!(r.len() == 9 && r[0] == (0x35 | if dup { 8 } else { 0 }) && r[1] == 7, "C09|header|fixed header of the blocking encoder is wrong");
-        same_bytes!(pkt, r, &[W::Take(usize::MAX)], 2, "C09|async.all_at_once|encode_async emits different bytes than encode()");
-        same_bytes!(pkt, r, &[W::Take(1), W::Pend, W::Take(1), W::Pend, W::Take(2), W::Take(1), W::Pend, W::Take(3), W::Take(usize::MAX)], 8,
-            "C09|async.partial_writes|encode_async under partial writes and Pending emits different bytes than encode()");
-        same_bytes!(pkt, r, &[W::Pend, W::Pend, W::Take(8), W::Pend, W::Take(1)], 8, "C09|async.pending_first|encode_async with Pending before any write emits different bytes than encode()");
-        // sink faults: same kind, only a prefix written
-        let (out, sink) = drive!(pkt, &[W::Take(3), W::Fail(io::ErrorKind::BrokenPipe)], 3);
-        vassert!(matches!(&out, Some(Err(mp::Error::IoError(k, _))) if *k == io::ErrorKind::BrokenPipe), "C14|async_encode.fault_kind|encode_async reports a different error than the sink produced");
-        vassert!(sink.len == 3 && eq_bytes(&sink.buf[..3], &r[..3]), "C14|async_encode.prefix|bytes written before the fault are not a prefix of the encoding");
-        done(out);
-        let (out, sink) = drive!(pkt, &[W::Take(5), W::Zero], 3);
-        vassert!(matches!(&out, Some(Err(mp::Error::IoError(k, _))) if *k == io::ErrorKind::WriteZero), "C14|async_encode.write_zero|a zero-length write is not reported as WriteZero");
-        vassert!(sink.len == 5, "C14|async_encode.prefix_zero|bytes written before the zero-length write are not a prefix");
-        done(out);
+        vassert!(eq_bytes(a.as_ref(), b.as_ref()), "C09|repeat|two invocations of encode() emit different bytes");
+        vassert!(matches!(a, mp::VarBytes::Dynamic(v) if v.len() == 9), "C09|varbytes.dynamic|Dynamic container does not hold exactly the encoding");
         vcover!(true, "compared");
     } else {
         vassert!(false, "C09|encode_fails|encode() fails on a valid packet");
     }
     done(e1); done(e2); done(pkt);
+}
+
+pub fn v3_publish_fault(s: &mut Src) {
+    let (pkt, _) = v3_publish(s);
+    let e1 = pkt.encode();
+    if let Ok(a) = &e1 {
+        let r: &[u8] = a.as_ref();
+        let (out, sink) = drive!(pkt, &[W::Take(3), W::Fail(io::ErrorKind::BrokenPipe)], 3);
+        vassert!(matches!(&out, Some(Err(mp::Error::IoError(k, _))) if *k == io::ErrorKind::BrokenPipe), "C14|async_encode.fault_kind|encode_async reports a different error than the sink produced");
+        vassert!(sink.len == 3 && eq_bytes(&sink.buf[..3], &r[..3]), "C14|async_encode.prefix|bytes written before the fault are not a prefix of the encoding");
+        done(out);
+        vcover!(true, "fault");
+    }
+    done(e1); done(pkt);
+}
+
+pub fn v3_publish_zero(s: &mut Src) {
+    let (pkt, _) = v3_publish(s);
+    let e1 = pkt.encode();
+    if let Ok(a) = &e1 {
+        let r: &[u8] = a.as_ref();
+        let (out, sink) = drive!(pkt, &[W::Take(5), W::Zero], 3);
+        vassert!(matches!(&out, Some(Err(mp::Error::IoError(k, _))) if *k == io::ErrorKind::WriteZero), "C14|async_encode.write_zero|a zero-length write is not reported as WriteZero");
+        vassert!(sink.len == 5 && eq_bytes(&sink.buf[..5], &r[..5]), "C14|async_encode.prefix_zero|bytes written before the zero-length write are not a prefix");
+        done(out);
+        vcover!(true, "zero");
+    }
+    done(e1); done(pkt);
 }
 
 pub fn v3_fixed_async(s: &mut Src) {
@@ -157,19 +198,98 @@ pub fn v3_fixed_async(s: &mut Src) {
     }
 }
 
-pub fn v5_puback_async(s: &mut Src) {
+fn v5_puback(s: &mut Src) -> mp::v5::Packet {
     let pid = s.u16();
     let c = s.u8();
     vassume!(pid != 0 && c < 0x80);
-    let pkt = mp::v5::Packet::Puback(mp::v5::Puback { pid: mp::Pid::try_from(pid).unwrap(), reason_code: mp::v5::PubackReasonCode::QuotaExceeded,
-        properties: mp::v5::PubackProperties { reason_string: Some(Arc::new(unsafe { String::from_utf8_unchecked(vec![c]) })), user_properties: vec![] } });
+    mp::v5::Packet::Puback(mp::v5::Puback { pid: mp::Pid::try_from(pid).unwrap(), reason_code: mp::v5::PubackReasonCode::QuotaExceeded,
+        properties: mp::v5::PubackProperties { reason_string: Some(Arc::new(unsafe { String::from_utf8_unchecked(vec![c]) })), user_properties: vec![] } })
+}
+macro_rules! v5_puback_script {
+    ($name:ident, $acts:expr, $polls:expr, $label:literal) => {
+        pub fn $name(s: &mut Src) {
+            let pkt = v5_puback(s);
+            let e1 = pkt.encode();
+            if let Ok(a) = &e1 {
+                let r: &[u8] = a.as_ref();
+                vassert!(r.len() == 10 && r[0] == 0x40 && r[1] == 8 && r[4] == 0x97, "C09|v5.header|v5 PUBACK header / reason byte wrong");
+                same_bytes!(pkt, r, $acts, $polls, $label);
+                vcover!(true, "compared");
+            } else {
+                vassert!(false, "C09|encode_fails5|encode() fails on a valid packet");
+            }
+            done(e1); done(pkt);
+        }
+    };
+}
+v5_puback_script!(v5_puback_all, &[W::Take(usize::MAX)], 2, "C09|async.v5_all|v5 encode_async emits different bytes than encode()");
+v5_puback_script!(v5_puback_partial, &[W::Take(2), W::Pend, W::Take(1), W::Pend, W::Take(4), W::Take(usize::MAX)], 6, "C09|async.v5_partial|v5 encode_async under partial writes emits different bytes than encode()");
+
+/// io::Write sink that accepts at most `k` bytes per write call (the blocking counterpart of SinkW)
+pub struct StepSink<const N: usize> {
+    pub buf: [u8; N],
+    pub len: usize,
+    pub k: usize,
+    pub overflow: bool,
+}
+
+impl<const N: usize> io::Write for StepSink<N> {
+    fn write(&mut self, data: &[u8]) -> io::Result<usize> {
+        let n = if data.len() < self.k { data.len() } else { self.k };
+        let mut i = 0;
+        while i < n {
+            if self.len < N {
+                self.buf[self.len] = data[i];
+                self.len += 1;
+            } else {
+                self.overflow = true;
+            }
+            i += 1;
+        }
+        Ok(n)
+    }
+    fn flush(&mut self) -> io::Result<()> {
+        Ok(())
+    }
+}
+
+/// "Packet-level encoding equals the fixed header followed by what the body's streaming encoder
+/// writes into any sink": sinks taking 1 and 2 bytes per write call
+pub fn v3_publish_body_sink(s: &mut Src) {
+    use mp::Encodable;
+    let (pkt, _dup) = v3_publish(s);
     let e1 = pkt.encode();
-    if let Ok(a) = &e1 {
+    if let (Ok(a), mp::v3::Packet::Publish(body)) = (&e1, &pkt) {
         let r: &[u8] = a.as_ref();
-        vassert!(r.len() == 10 && r[0] == 0x40 && r[1] == 8 && r[4] == 0x97, "C09|v5.header|v5 PUBACK header / reason byte wrong");
-        same_bytes!(pkt, r, &[W::Take(usize::MAX)], 2, "C09|async.v5_all|v5 encode_async emits different bytes than encode()");
-        same_bytes!(pkt, r, &[W::Take(2), W::Pend, W::Take(1), W::Pend, W::Take(4), W::Take(usize::MAX)], 6, "C09|async.v5_partial|v5 encode_async under partial writes emits different bytes than encode()");
+        let mut k1 = StepSink::<8> { buf: [0; 8], len: 0, k: 1, overflow: false };
+        let mut k2 = StepSink::<8> { buf: [0; 8], len: 0, k: 2, overflow: false };
+        let r1 = body.encode(&mut k1);
+        let r2 = body.encode(&mut k2);
+        vassert!(r1.is_ok() && r2.is_ok(), "C09|body_sink.fails|the body's streaming encoder fails on a sink that accepts part of each write");
+        vassert!(r.len() == 9 && body.encode_len() == 7, "C09|body_sink.len|encode_len() differs from the bytes of the body");
+        vassert!(!k1.overflow && k1.len == 7 && eq_bytes(&r[2..], &k1.buf[..7]), "C09|body_sink.step1|packet bytes differ from header ++ what the body encoder streams into a 1-byte-per-write sink");
+        vassert!(!k2.overflow && k2.len == 7 && eq_bytes(&r[2..], &k2.buf[..7]), "C09|body_sink.step2|packet bytes differ from header ++ what the body encoder streams into a 2-bytes-per-write sink");
         vcover!(true, "compared");
+        done(r1); done(r2);
+    } else {
+        vassert!(false, "C09|encode_fails|encode() fails on a valid packet");
+    }
+    done(e1); done(pkt);
+}
+
+pub fn v5_puback_body_sink(s: &mut Src) {
+    use mp::Encodable;
+    let pkt = v5_puback(s);
+    let e1 = pkt.encode();
+    if let (Ok(a), mp::v5::Packet::Puback(body)) = (&e1, &pkt) {
+        let r: &[u8] = a.as_ref();
+        let mut k1 = StepSink::<10> { buf: [0; 10], len: 0, k: 1, overflow: false };
+        let r1 = body.encode(&mut k1);
+        vassert!(r1.is_ok(), "C09|body_sink.fails5|the body's streaming encoder fails on a sink that accepts part of each write");
+        vassert!(r.len() == 10 && body.encode_len() == 8, "C09|body_sink.len5|encode_len() differs from the bytes of the body");
+        vassert!(!k1.overflow && k1.len == 8 && eq_bytes(&r[2..], &k1.buf[..8]), "C09|body_sink.v5_step1|packet bytes differ from header ++ what the body encoder streams into a 1-byte-per-write sink");
+        vcover!(true, "compared");
+        done(r1);
     } else {
         vassert!(false, "C09|encode_fails5|encode() fails on a valid packet");
     }
@@ -179,11 +299,35 @@ pub fn v5_puback_async(s: &mut Src) {
 scenarios! {
     #[kani::unwind(12)]
     #[kani::stub(<mqtt_proto_sync::Error as std::convert::From<std::io::Error>>::from, crate::model::from_io_kind_stub)]
-    c09_v3_publish_async [6] => v3_publish_async;
+    c09_v3_publish_all [6] => v3_publish_all;
+    #[kani::unwind(12)]
+    #[kani::stub(<mqtt_proto_sync::Error as std::convert::From<std::io::Error>>::from, crate::model::from_io_kind_stub)]
+    c09_v3_publish_partial [6] => v3_publish_partial;
+    #[kani::unwind(12)]
+    #[kani::stub(<mqtt_proto_sync::Error as std::convert::From<std::io::Error>>::from, crate::model::from_io_kind_stub)]
+    c09_v3_publish_pending_first [6] => v3_publish_pending_first;
+    #[kani::unwind(12)]
+    #[kani::stub(<mqtt_proto_sync::Error as std::convert::From<std::io::Error>>::from, crate::model::from_io_kind_stub)]
+    c09_v3_publish_repeat [6] => v3_publish_repeat;
+    #[kani::unwind(12)]
+    #[kani::stub(<mqtt_proto_sync::Error as std::convert::From<std::io::Error>>::from, crate::model::from_io_kind_stub)]
+    c09_v3_publish_fault [6] => v3_publish_fault;
+    #[kani::unwind(12)]
+    #[kani::stub(<mqtt_proto_sync::Error as std::convert::From<std::io::Error>>::from, crate::model::from_io_kind_stub)]
+    c09_v3_publish_zero [6] => v3_publish_zero;
     #[kani::unwind(8)]
     #[kani::stub(<mqtt_proto_sync::Error as std::convert::From<std::io::Error>>::from, crate::model::from_io_kind_stub)]
     c09_v3_fixed_async [3] => v3_fixed_async;
     #[kani::unwind(13)]
     #[kani::stub(<mqtt_proto_sync::Error as std::convert::From<std::io::Error>>::from, crate::model::from_io_kind_stub)]
-    c09_v5_puback_async [3] => v5_puback_async;
+    c09_v5_puback_all [3] => v5_puback_all;
+    #[kani::unwind(13)]
+    #[kani::stub(<mqtt_proto_sync::Error as std::convert::From<std::io::Error>>::from, crate::model::from_io_kind_stub)]
+    c09_v5_puback_partial [3] => v5_puback_partial;
+    #[kani::unwind(12)]
+    #[kani::stub(<mqtt_proto_sync::Error as std::convert::From<std::io::Error>>::from, crate::model::from_io_kind_stub)]
+    c09_v3_publish_body_sink [6] => v3_publish_body_sink;
+    #[kani::unwind(13)]
+    #[kani::stub(<mqtt_proto_sync::Error as std::convert::From<std::io::Error>>::from, crate::model::from_io_kind_stub)]
+    c09_v5_puback_body_sink [3] => v5_puback_body_sink;
 }
